@@ -255,6 +255,93 @@ func c16(r *core.Report, p *core.Prog, thorough bool) {
 	if n == 0 {
 		r.Pass("C16.arith", "none", "", "no raw Coin subtraction in the vesting contract")
 	}
+	c16Delete(r, p)
+}
+
+// c16Delete: "the owner can always delete the pool". drain (and trigger) fail when
+// there is nothing to move, so delete may call them only under a balance test made on
+// the *current* balance: no call that changes the pool balance may run between the
+// test's load of the balance and the guarded call.
+func c16Delete(r *core.Report, p *core.Prog) {
+	r.Rule("C16.delete-live", "vestingsc:delete calls the steps that fail on an empty pool (trigger, drain) only under a pool-balance test whose balance load is not followed by a balance-changing call before the guarded call")
+	hs := BuildHandlers(p).Get("vestingsc:delete")
+	if len(hs) != 1 {
+		r.Unresolved("C16.delete-live", "vestingsc:delete")
+		return
+	}
+	h := hs[0]
+	mutatesBalance := map[*ssa.Function]bool{}
+	var mut func(f *ssa.Function, depth int) bool
+	mut = func(f *ssa.Function, depth int) bool {
+		if f == nil || f.Blocks == nil || depth > 5 {
+			return false
+		}
+		if v, ok := mutatesBalance[f]; ok {
+			return v
+		}
+		mutatesBalance[f] = false
+		res := false
+		for _, b := range f.Blocks {
+			for _, in := range b.Instrs {
+				if st, ok := in.(*ssa.Store); ok {
+					if fa, ok := st.Addr.(*ssa.FieldAddr); ok && core.FieldOf(fa) != nil && core.FieldOf(fa).Name() == "Balance" {
+						res = true
+					}
+				}
+				if ci, ok := in.(ssa.CallInstruction); ok {
+					if cal := core.StaticCallee(ci.Common()); cal != nil && cal.Pkg != nil && core.IsModule(cal.Pkg.Pkg.Path()) && mut(cal, depth+1) {
+						res = true
+					}
+				}
+			}
+		}
+		mutatesBalance[f] = res
+		return res
+	}
+	n := 0
+	for _, name := range []string{"trigger", "drain"} {
+		for _, c := range methodCalls(h, name) {
+			n++
+			pool := core.Receiver(c.Common())
+			// the guard: a dominating fact  load(pool…Balance) > 0
+			var guardLoad ssa.Instruction
+			for _, f := range CmpFacts(c.Block()) {
+				k, isK := core.ConstInt(f.Y)
+				if !isK || k != 0 || !(f.Op == token.GTR || f.Op == token.NEQ) {
+					continue
+				}
+				rt, pth := core.BaseObject(f.X)
+				if !strings.HasSuffix(pth, ".Balance") || canonObj(rt) != canonObj(pool) {
+					continue
+				}
+				if ld, ok := f.X.(ssa.Instruction); ok {
+					guardLoad = ld
+				}
+			}
+			ok := guardLoad != nil
+			why := "no dominating pool-balance test"
+			if ok {
+				for _, b := range h.Blocks {
+					for _, in := range b.Instrs {
+						c2, isC := in.(*ssa.Call)
+						if !isC || c2 == c {
+							continue
+						}
+						cal := core.StaticCallee(c2.Common())
+						if cal == nil || !mut(cal, 0) {
+							continue
+						}
+						if core.Reaches(guardLoad, c2) && core.Reaches(c2, c) {
+							ok = false
+							why = "the balance tested was read before " + cal.Name() + " (" + p.Pos(c2.Pos()) + "), which can empty the pool: " + name + " then fails and the pool cannot be deleted"
+						}
+					}
+				}
+			}
+			r.Check(ok, "C16.delete-live", fmt.Sprintf("delete:%s-under-current-balance#%d", name, n), p.Pos(c.Pos()), "a step that fails on an empty pool runs only when the pool is non-empty now; "+why)
+		}
+	}
+	r.Floor("C16.delete-live", "trigger/drain calls in vestingsc:delete", n, 2)
 }
 
 func keysOf(m map[string]bool) []string {
